@@ -9,14 +9,102 @@ import (
 	"go/format"
 	"go/parser"
 	"go/token"
+	"go/types"
+	"os"
 	"path/filepath"
 	"strconv"
+	"strings"
+
+	"golang.org/x/tools/go/packages"
 )
 
 const hookPath = "github.com/formancehq/stack/libs/go-libs/verifhook"
 
+// SingleValued type-checks the packages holding the given files (absolute paths under
+// repoDir) and returns, keyed "file:line:col", the calls of real functions (not
+// conversions, not builtins) that yield exactly one value: the ones File may wrap in
+// verifhook.YieldVal when they are an argument of another call.
+func SingleValued(repoDir string, files []string) (map[string]bool, error) {
+	want := map[string]bool{}
+	byMod := map[string]map[string]bool{} // module dir -> package patterns
+	for _, f := range files {
+		want[f] = true
+		rel := mustRel(repoDir, f)
+		mod := repoDir
+		if strings.HasPrefix(rel, "libs/") {
+			mod, rel = filepath.Join(repoDir, "libs"), strings.TrimPrefix(rel, "libs/")
+		}
+		if byMod[mod] == nil {
+			byMod[mod] = map[string]bool{}
+		}
+		byMod[mod]["./"+filepath.Dir(rel)] = true
+	}
+	var pkgs []*packages.Package
+	for mod, ds := range byMod {
+		var pats []string
+		for d := range ds {
+			pats = append(pats, d)
+		}
+		cfg := &packages.Config{
+			Mode: packages.NeedName | packages.NeedFiles | packages.NeedCompiledGoFiles | packages.NeedSyntax | packages.NeedTypes | packages.NeedTypesInfo | packages.NeedImports,
+			Dir:  mod,
+			Env:  append(os.Environ(), "GOFLAGS=-mod=mod", "GOPROXY=off", "GOSUMDB=off", "GOTOOLCHAIN=local"),
+		}
+		ps, err := packages.Load(cfg, pats...)
+		if err != nil {
+			return nil, err
+		}
+		pkgs = append(pkgs, ps...)
+	}
+	out := map[string]bool{}
+	for _, p := range pkgs {
+		for _, e := range p.Errors {
+			return nil, fmt.Errorf("type-checking %s: %v", p.PkgPath, e)
+		}
+		for _, f := range p.Syntax {
+			name := p.Fset.Position(f.Pos()).Filename
+			if !want[name] {
+				continue
+			}
+			ast.Inspect(f, func(n ast.Node) bool {
+				call, ok := n.(*ast.CallExpr)
+				if !ok {
+					return true
+				}
+				tv, ok := p.TypesInfo.Types[call.Fun]
+				if !ok || tv.IsType() || tv.IsBuiltin() {
+					return true
+				}
+				rt, ok := p.TypesInfo.Types[call]
+				if !ok || rt.Type == nil || rt.IsVoid() || rt.Value != nil {
+					return true
+				}
+				if _, tuple := rt.Type.(*types.Tuple); tuple {
+					return true
+				}
+				if b, ok := rt.Type.(*types.Basic); ok && b.Info()&types.IsUntyped != 0 {
+					return true
+				}
+				pos := p.Fset.Position(call.Pos())
+				out[fmt.Sprintf("%s:%d:%d", pos.Filename, pos.Line, pos.Column)] = true
+				return true
+			})
+		}
+	}
+	return out, nil
+}
+
+func mustRel(base, p string) string {
+	r, err := filepath.Rel(base, p)
+	if err != nil {
+		return p
+	}
+	return r
+}
+
 // File returns the instrumented source of filename (content src) and the number of yields.
-func File(filename string, src []byte) ([]byte, int, error) {
+// single (from SingleValued; may be nil) names the nested calls that get a YieldVal.
+func File(filename string, src []byte, single map[string]bool) ([]byte, int, error) {
 	fset := token.NewFileSet()
 	f, err := parser.ParseFile(fset, filename, src, parser.ParseComments)
 	if err != nil {
@@ -39,6 +127,26 @@ func File(filename string, src []byte) ([]byte, int, error) {
 			b.List = rewriteList(b.List)
 		}
 	}
+	// an argument that is itself a call of a single-valued function gets a pre-emption
+	// point between its return and the outer call: f(g(x)) -> f(verifhook.YieldVal(site, g(x)))
+	wrapArgs := func(call *ast.CallExpr) {
+		for i, a := range call.Args {
+			inner, ok := a.(*ast.CallExpr)
+			if !ok {
+				continue
+			}
+			pos := fset.Position(inner.Pos())
+			if !single[fmt.Sprintf("%s:%d:%d", pos.Filename, pos.Line, pos.Column)] {
+				continue
+			}
+			n++
+			site := fmt.Sprintf("%s:%d.%d", base, pos.Line, pos.Column)
+			call.Args[i] = &ast.CallExpr{
+				Fun:  &ast.SelectorExpr{X: ast.NewIdent("verifhook"), Sel: ast.NewIdent("YieldVal")},
+				Args: []ast.Expr{&ast.BasicLit{Kind: token.STRING, Value: strconv.Quote(site)}, inner},
+			}
+		}
+	}
 	var visitExpr func(e ast.Node)
 	visitExpr = func(e ast.Node) {
 		if e == nil {
@@ -47,6 +155,15 @@ func File(filename string, src []byte) ([]byte, int, error) {
 		ast.Inspect(e, func(x ast.Node) bool {
 			if fl, ok := x.(*ast.FuncLit); ok {
 				rewriteBlock(fl.Body)
+				return false
+			}
+			if call, ok := x.(*ast.CallExpr); ok {
+				// children first (their positions are still the original ones)
+				for _, a := range call.Args {
+					visitExpr(a)
+				}
+				visitExpr(call.Fun)
+				wrapArgs(call)
 				return false
 			}
 			return true
